@@ -814,6 +814,39 @@ impl<'a> Driver<'a> {
         }
     }
 
+    /// A TLC-generated record (Mode C): observe the position, then every king move (castling included) and its result.
+    pub fn generated(&mut self, text: &str) {
+        let b = match guard(|| Board::from_fen(text, true)) {
+            Some(Ok(b)) => b,
+            Some(Err(e)) => {
+                // the specification calls the position sound; the library refusing it is logged, not hidden
+                self.out.next_history();
+                self.out.emit("refused", &format!("\"arg\":{},\"cp\":{},\"err\":\"{:?}\"", jstr(text), jcps(text), e));
+                return;
+            }
+            None => {
+                self.out.next_history();
+                self.out.emit("refused", &format!("\"arg\":{},\"cp\":{},\"err\":\"panic\"", jstr(text), jcps(text)));
+                return;
+            }
+        };
+        self.emit_reset("generated", text, &b);
+        self.observe(&b, None);
+        let king = b.king(b.side_to_move());
+        let mut api = 0;
+        for m in legal_moves(&b) {
+            if m.from != king {
+                continue;
+            }
+            let mut c = b.clone();
+            self.emit_reset("generated", text, &b);
+            api += 1;
+            if self.play_event(&mut c, m, api) {
+                self.observe(&c, Some(&b));
+            }
+        }
+    }
+
     /// Two orders of the same two non-interfering moves (and the same with null moves between):
     /// the boards must be equal, and the whole-trace hash relation sees both routes.
     pub fn transpositions(&mut self) {
@@ -900,6 +933,13 @@ pub fn run(args: &Args) {
                 let t = roots.curated[((start + i) % n) as usize].clone();
                 if guard(|| d.subtree(&t, i < deep)).is_none() {
                     d.out.emit("aborted", "\"where\":\"subtree\"");
+                }
+            }
+        }
+        if let Some(path) = args.get("sfen-file") {
+            for t in read_lines(path) {
+                if guard(|| d.generated(&t)).is_none() {
+                    d.out.emit("aborted", "\"where\":\"generated\"");
                 }
             }
         }
